@@ -57,3 +57,30 @@ def check_oracle_args(m, prefix, pc, bounds, k, oracle, extra_arg=None, hyps=())
                      note='%s applied to (1+L)/2 (two-sided) / L (one-sided)%s' % (oracle, ' and the stated degrees of freedom' if extra_arg is not None else ''))
             n += 1
     return n
+
+
+def arith_ci_paths(m, suffix='', conf=None):
+    """Ok paths of Arithmetic::ci_mean on a symbolic state: {(kind, uses_t): (pc, variant, bounds)} plus all results."""
+    f = m.fn('ci_mean', 'Arithmetic', 'inherent')
+    ref, extra = E.self_ref(E.arith(suffix))
+    res = m.run(f, [ref, conf or E.confidence()], extra)
+    by = {}
+    for r in res:
+        if r.kind == 'stuck':
+            raise mir.Stuck(r.value[1])
+        if r.kind == 'return' and E.is_ok(r.value):
+            variant, bounds = E.interval_parts(r.value)
+            k = E.pc_kind(r.pc)
+            t = bool(any(apps_in(b, 'Tq') for b in bounds))
+            by[(k, t)] = (r.pc, variant, bounds)
+    return by, res
+
+
+def abs_c(t, C=None):
+    C = C or T.var('C')
+    return T.walk(t, lambda op, args, old: C if op == 'app' else T.mk(op, *args))
+
+
+def sqrt_witness_free(terms):
+    """R-semantics helper: nothing to do, the emitter introduces sqrt witnesses itself."""
+    return terms
